@@ -91,7 +91,7 @@ declare_fields("RootZoneWater", default="Real")
 contract(SOL + "aeration_stress.py", "aeration_stress",
          params=dict(NewCond_AerDays="Real", Crop_LagAer="Int", thRZ=OBJ("RootZoneWater")),
          requires=["NewCond_AerDays >= 0", "NewCond_AerDays <= Crop_LagAer", "Crop_LagAer >= 1",
-                   "thRZ.Aer < thRZ.S", "thRZ.Act <= thRZ.S"],
+                   "thRZ.Act <= thRZ.S"],
          returns=[("Ksa_Aer", "Real"), ("AerDays", "Real")],
          ensures=[("C04.ksa_le_1", "Ksa_Aer <= 1"),
                   # the factor 3 is hard-coded: for a lag above 3 days the coefficient goes negative (callers treat it like 0)
